@@ -10,7 +10,7 @@ def main():
     if not ok:
         print('SETUP: harness build failed')
         return 1
-    res = common.translate(R.ALL_COMPONENTS)
+    res = common.translate(R.all_components())
     bad = {k: v for k, v in res.items() if v}
     if bad:
         print('SETUP: translator failures:', bad)
@@ -19,7 +19,7 @@ def main():
     print(out[-3000:])
     if not ok:
         print('SETUP: Coq build failed (individual checks will report which property is affected)')
-    for comp, (fns, targets) in R.DRIVERS.items():
+    for comp, (fns, targets) in R.all_drivers().items():
         ok2, out2 = common.build_driver(comp, fns, targets)
         if not ok2:
             print('SETUP: driver %s failed: %s' % (comp, out2[-1500:]))
